@@ -95,12 +95,12 @@ class Engine:
             tr.pop()
         if not tr:
             return None
-        return tr[:-1] + [(False, False)]
+        return tr[:-1] + [(False, False, tr[-1][2])]
 
     def add(self, c):
         self.solver.add(c)
 
-    def decide(self, cond):
+    def decide(self, cond, note=None):
         if isinstance(cond, bool):
             return cond
         cond = z3.simplify(cond)
@@ -110,9 +110,9 @@ class Engine:
             return False
         i = len(self.trace)
         if i < len(self.prefix):
-            taken, alt = self.prefix[i]
+            taken, alt = self.prefix[i][0], self.prefix[i][1]
             self.solver.add(cond if taken else z3.Not(cond))
-            self.trace.append((taken, alt))
+            self.trace.append((taken, alt, note))
             return taken
         self.stats['decisions'] += 1
         rt = self._check(cond)
@@ -129,11 +129,11 @@ class Engine:
             self.stats['forks'] += 1
         if t_ok:
             self.solver.add(cond)
-            self.trace.append((True, f_ok))
+            self.trace.append((True, f_ok, note))
             return True
         if f_ok:
             self.solver.add(z3.Not(cond))
-            self.trace.append((False, False))
+            self.trace.append((False, False, note))
             return False
         raise PathInfeasible('path condition unsatisfiable')
 
@@ -148,19 +148,32 @@ class Engine:
         self.solver.add(cond)
 
     def concretize(self, expr, cap=2048):
-        """enumerate the feasible values of a term by binary forks (complete up to `cap`)"""
+        """enumerate the feasible values of a term by binary forks (complete up to `cap`).  The candidate value of each
+        fork is recorded in the decision trace, so that a re-execution replays exactly the same candidates whatever
+        model the solver happens to return (models are not stable across re-executions)."""
         n = 0
         while True:
-            r = self._check()
-            if r != z3.sat:
-                if r == z3.unknown:
-                    self.stats['inconclusive'] += 1
-                    raise Inconclusive('solver unknown in concretize')
-                raise PathInfeasible('infeasible in concretize')
-            v = self.solver.model().eval(expr, model_completion=True)
-            if self.decide(expr == v):
+            i = len(self.trace)
+            if i < len(self.prefix) and self.prefix[i][2] is not None:
+                raw = self.prefix[i][2]
+            else:
+                r = self._check()
+                if r != z3.sat:
+                    if r == z3.unknown:
+                        self.stats['inconclusive'] += 1
+                        raise Inconclusive('solver unknown in concretize')
+                    raise PathInfeasible('infeasible in concretize')
+                mv = self.solver.model().eval(expr, model_completion=True)
+                raw = z3.is_true(mv) if z3.is_bool(expr) else mv.as_long()
+            if z3.is_bool(expr):
+                v = z3.BoolVal(bool(raw))
+            elif z3.is_bv(expr):
+                v = z3.BitVecVal(raw, expr.size())
+            else:
+                v = z3.IntVal(raw)
+            if self.decide(expr == v, note=raw):
                 if z3.is_bool(expr):
-                    return z3.is_true(v)
+                    return bool(raw)
                 return v
             n += 1
             if n > cap:
@@ -538,17 +551,16 @@ class SymInt:
         return hash(self.__index__())
 
     def bit_length(self):
+        """symbolic: a chain of if-then-else over the magnitude classes - no fork here; a fork happens only where the
+        result is needed as a concrete number (and then only per class that is still feasible)"""
         w = self.e.size()
         a = _sx(self.e, w + 1)
         a = z3.If(a < 0, -a, a)
-        lo, hi = 0, w            # binary search over the magnitude classes (complete: every class is a leaf)
-        while lo < hi:
-            mid = (lo + hi) // 2
-            if E().decide(z3.ULT(a, z3.BitVecVal(1 << mid, w + 1))):
-                hi = mid
-            else:
-                lo = mid + 1
-        return lo
+        rw = (w + 1).bit_length() + 1
+        r = z3.BitVecVal(w, rw)
+        for k in range(w - 1, -1, -1):
+            r = z3.If(z3.ULT(a, z3.BitVecVal(1 << k, w + 1)), z3.BitVecVal(k, rw), r)
+        return mk(r)
 
     def to_bytes(self, length=1, byteorder='big', *, signed=False):
         length = _cidx(length)
